@@ -35,6 +35,9 @@ def src_hash():
 
 
 def build_dir():
+    # workers inherit the directory chosen by the driver, so that editing sources while a check runs cannot split them
+    if os.environ.get("VERIF_BUILD_DIR"):
+        return os.environ["VERIF_BUILD_DIR"]
     d = os.path.join(BUILD, src_hash())
     os.makedirs(d, exist_ok=True)
     return d
